@@ -88,7 +88,7 @@ struct RenderW {
     }
 
     // one render into a fresh stream with the given prefix; returns the stream content
-    bool render_once(int how, const C *content, SizeT length, const VT &value, Tags *cache, const U32 &prefix, U32 &out) {
+    bool render_once(int how, const C *content, SizeT length, const VT &value, Tags *cache, const U32 &prefix, U32 &out, TC *core = nullptr) {
         ArenaObj<Stm> stream;
         ArenaText<C>  pre(prefix);
         cx.renders++;
@@ -111,6 +111,7 @@ struct RenderW {
             switch (how) {
                 case 0: Qentem::Template::Render(content, length, value, *stream); break;
                 case 1: Qentem::Template::Render(content, length, value, *stream, *cache); break;
+                case 3: core->Render(*cache, value, *stream); break; // a long-lived TemplateCore object kept with its cache
                 default: {
                     TC temp{content, length};
                     temp.Render(*cache, value, *stream);
@@ -204,6 +205,40 @@ struct RenderW {
             ok = render_once(2, content, length, v1, cache.p, prefix, o1) && render_once(2, content, length, v2, cache.p, U32(), o2);
             if (ok && (o1 != fresh1 || o2 != fresh2))
                 cx.fail("output-diverge", "render:parsed-cache", "render through a parsed tag cache differs from a fresh single render");
+            if (ok && !cx.failed) {
+                // one TemplateCore object used for several renders while the value it is given lives at ONE address and is
+                // replaced / updated in place between renders (what a server does with a per-request value slot)
+                TC           core{content, length};
+                ArenaObj<VT> slot;
+                {
+                    LibCall lc;
+                    new (slot.p) VT(v1);
+                }
+                ok = render_once(3, content, length, *slot, cache.p, prefix, o3, &core);
+                if (ok && o3 != fresh1) cx.fail("output-diverge", "render:same-core", "render through a reused TemplateCore object differs from a fresh single render");
+                {
+                    LibCall lc;
+                    slot->~VT();
+                    new (slot.p) VT(v2);
+                }
+                if (ok && !cx.failed) {
+                    ok = render_once(3, content, length, *slot, cache.p, U32(), o3, &core);
+                    if (ok && o3 != fresh2) cx.fail("output-diverge", "render:same-core-new-value", "second render of a reused TemplateCore object with another value at the same address differs from a fresh single render");
+                }
+                {
+                    LibCall lc;
+                    *slot = v1; // updated in place
+                }
+                if (ok && !cx.failed) {
+                    ok = render_once(3, content, length, *slot, cache.p, prefix, o3, &core);
+                    if (ok && o3 != fresh1) cx.fail("output-diverge", "render:same-core-updated-value", "render after an in-place update of the value differs from a fresh single render");
+                }
+                {
+                    LibCall lc;
+                    slot->~VT();
+                }
+                qsim::probe("render.same-core-reuse");
+            }
             if (ok && !cx.failed && variant == 3) {
                 // cache lifetimes: copy, destroy the original, render through the copy; move; clear and re-parse
                 ArenaObj<Tags> copy, moved;
@@ -231,6 +266,26 @@ struct RenderW {
                 if (ok && !cx.failed) {
                     ok = render_once(2, content, length, v2, moved.p, U32(), o3);
                     if (ok && o3 != fresh2) cx.fail("output-diverge", "render:reparsed-cache", "render through a cleared and re-parsed tag cache differs from a fresh single render");
+                }
+                // a cache composed tag by tag from another one (element-level moves and swaps of tag records)
+                if (ok && !cx.failed) {
+                    ArenaObj<Tags> composed;
+                    {
+                        LibCall lc;
+                        new (composed.p) Tags();
+                        for (SizeT i = 0; i < moved->Size(); i++) *composed += static_cast<Qentem::Tags::TagBit &&>(moved->Storage()[i]);
+                        moved->Reset();
+                        if (composed->Size() >= 2) {
+                            composed->Swap(composed->Storage()[0], composed->Storage()[1]);
+                            composed->Swap(composed->Storage()[1], composed->Storage()[0]);
+                        }
+                    }
+                    ok = render_once(2, content, length, v1, composed.p, prefix, o3);
+                    if (ok && o3 != fresh1) cx.fail("output-diverge", "render:composed-cache", "render through a cache composed from moved tag records differs from a fresh single render");
+                    {
+                        LibCall lc;
+                        composed->~Tags();
+                    }
                 }
                 {
                     LibCall lc;
